@@ -147,13 +147,13 @@ fn main() {
         std::thread::spawn(move || loop {
             std::thread::sleep(std::time::Duration::from_millis(500));
             let (t, what) = w.lock().unwrap().clone();
-            if t.elapsed().as_secs() > 60 {
+            if t.elapsed().as_secs() > 20 {
                 let _ = std::fs::create_dir_all(&replay_dir);
                 let path = format!("{replay_dir}/{prop}-hang.json");
                 let _ = std::fs::write(
                     &path,
                     format!(
-                        "{{\"property\":{},\"kind\":\"oracle\",\"what\":\"a case did not terminate within 60 s (implementation or model hangs)\",\"case\":{}}}\n",
+                        "{{\"property\":{},\"kind\":\"oracle\",\"what\":\"a case did not terminate within 20 s (implementation or model hangs)\",\"case\":{}}}\n",
                         json_str(&prop),
                         json_str(&what)
                     ),
